@@ -107,6 +107,9 @@ def run_case(task):
             res['violations'] = [v for v in res['violations'] if v['kind'] == 'memory']
             res['undecided'] = [u for u in res['undecided'] if 'solver unknown' not in str(u[1])]
             if not res['undecided'] and res['verdict'] == 'UNDECIDED': res['verdict'] = 'PROVED'
+        if ob.get('writes_only'):          # abstract arithmetic over-approximates index computations: only the recorded write-set is claimed
+            res['violations'] = [v for v in res['violations'] if v['kind'] == 'assert' and 'writes to pre-existing objects' in v['detail']]
+            res['undecided'] = [u for u in res['undecided'] if 'solver unknown' not in str(u[1])]
         # de-duplicate by (kind, what)
         seen = {};
         for v in res['violations']: seen.setdefault((v['kind'], v['what']), v)
